@@ -6,6 +6,7 @@ import (
 	"fmt"
 	"sort"
 	"strings"
+	"sync/atomic"
 	"time"
 
 	"github.com/anishathalye/porcupine"
@@ -73,13 +74,26 @@ type regObs struct {
 	Failed bool   `json:"failed,omitempty"` // transport trouble: tells nothing
 }
 
-type descIface struct{ name, desc string }
+// descIface answers the registered text the first time it is asked (at
+// registration) and something else ever after: what the service reports is
+// the text that was registered.
+type descIface struct {
+	name, desc string
+	asked      *int32
+}
+
+func newDescIface(name, desc string) *descIface { return &descIface{name, desc, new(int32)} }
 
 func (d *descIface) VarlinkDispatch(ctx context.Context, c varlink.Call, m string) error {
 	return c.ReplyMethodNotImplemented(ctx, m)
 }
-func (d *descIface) VarlinkGetName() string        { return d.name }
-func (d *descIface) VarlinkGetDescription() string { return d.desc }
+func (d *descIface) VarlinkGetName() string { return d.name }
+func (d *descIface) VarlinkGetDescription() string {
+	if atomic.AddInt32(d.asked, 1) > 1 {
+		return d.desc + "\n# edited after registration"
+	}
+	return d.desc
+}
 
 type resolverIface struct{ spec *ResolverSpec }
 
@@ -113,7 +127,7 @@ func (s *RegScenario) Setup(k *sim.Kernel) {
 	}
 	for _, is := range s.Service.Ifaces {
 		// (distinct fresh names on a service that has never served)
-		if err := svc.RegisterInterface(&descIface{is.Name, is.Desc}); err != nil {
+		if err := svc.RegisterInterface(newDescIface(is.Name, is.Desc)); err != nil {
 			k.Violate("registration", "fresh-name-refused", sf("RegisterInterface(%q) on a new service was refused: %v", is.Name, err))
 		}
 	}
@@ -131,7 +145,7 @@ func (s *RegScenario) Setup(k *sim.Kernel) {
 			panic(err)
 		}
 		for _, is := range s.Other.Ifaces {
-			if err := o.RegisterInterface(&descIface{is.Name, is.Desc}); err != nil {
+			if err := o.RegisterInterface(newDescIface(is.Name, is.Desc)); err != nil {
 				k.Violate("registration", "fresh-name-refused", sf("RegisterInterface(%q) on a second new service was refused: %v", is.Name, err))
 			}
 		}
@@ -171,7 +185,7 @@ func (s *RegScenario) Setup(k *sim.Kernel) {
 					continue
 				case "reg":
 					o.Call = sim.Rec("reg.call", op.Name)
-					err := svc.RegisterInterface(&descIface{op.Name, op.Desc})
+					err := svc.RegisterInterface(newDescIface(op.Name, op.Desc))
 					o.Out = "ok"
 					if err != nil {
 						o.Out = "refused"
